@@ -74,12 +74,20 @@ type fCloud struct {
 	enis    map[int]*fEni
 	nextEni int
 	plan    []string // outcomes of the next mutating calls, consumed in call order
+	kplan   map[string][]string // outcomes for the next calls of one kind (create, assign4, assign6, unassign4, unassign6, delete)
 	busy    map[int]int // addresses named by an unassign call in flight (never re-issued meanwhile)
 	jitter  func() time.Duration
 	faults  int
 }
 
-func (c *fCloud) next() string {
+func (c *fCloud) next(kind string) string {
+	if q := c.kplan[kind]; len(q) > 0 {
+		c.kplan[kind] = q[1:]
+		if q[0] != "ok" {
+			c.faults++
+		}
+		return q[0]
+	}
 	if len(c.plan) == 0 {
 		return "ok"
 	}
@@ -144,7 +152,7 @@ func (c *fCloud) pause() {
 
 func (c *fCloud) CreateNetworkInterface(n4, n6 int, eniType string) (*daemon.ENI, []netip.Addr, []netip.Addr, error) {
 	c.mu.Lock()
-	o := c.next()
+	o := c.next("create")
 	c.w.Emit(vt.M{"ev": "create_begin", "n4": n4, "n6": n6, "type": strings.ToLower(eniType), "plan": o})
 	c.mu.Unlock()
 	c.pause()
@@ -193,7 +201,7 @@ func (c *fCloud) eniObj(e int) *daemon.ENI {
 func (c *fCloud) assign(id string, count int, fam int) ([]netip.Addr, error) {
 	e := eniNum(id)
 	c.mu.Lock()
-	o := c.next()
+	o := c.next(fmt.Sprintf("assign%d", fam))
 	c.w.Emit(vt.M{"ev": "assign_begin", "e": e, "fam": fam, "n": count, "plan": o})
 	c.mu.Unlock()
 	c.pause()
@@ -206,6 +214,9 @@ func (c *fCloud) assign(id string, count int, fam int) ([]netip.Addr, error) {
 	}
 	n := count
 	var err error
+	if strings.HasPrefix(o, "fa") { // the call took effect, the result comes with an error
+		err = codeErr(strings.TrimPrefix(strings.TrimPrefix(o, "fa"), ":"))
+	}
 	if strings.HasPrefix(o, "partial") {
 		k := 1
 		fmt.Sscanf(o, "partial:%d", &k)
@@ -243,7 +254,7 @@ func (c *fCloud) AssignNIPv6(id string, count int, mac string) ([]netip.Addr, er
 func (c *fCloud) unassign(id string, ips []netip.Addr, fam int) error {
 	e := eniNum(id)
 	c.mu.Lock()
-	o := c.next()
+	o := c.next(fmt.Sprintf("unassign%d", fam))
 	c.w.Emit(vt.M{"ev": "unassign_begin", "e": e, "fam": fam, "addrs": nums(ips), "plan": o})
 	for _, a := range nums(ips) {
 		c.busy[a]++
@@ -283,7 +294,7 @@ func (c *fCloud) UnAssignNIPv6(id string, ips []netip.Addr, mac string) error {
 func (c *fCloud) DeleteNetworkInterface(id string) error {
 	e := eniNum(id)
 	c.mu.Lock()
-	o := c.next()
+	o := c.next("delete")
 	c.w.Emit(vt.M{"ev": "delete_begin", "e": e, "plan": o})
 	c.mu.Unlock()
 	c.pause()
@@ -371,7 +382,7 @@ func podName(p int) string { return fmt.Sprintf("ns/pod-%d", p) }
 func newPoolSys(t *testing.T, w *vt.Writer, cfg poolCfg, scen int, podRes []daemon.PodResources, cloud *fCloud) *poolSys {
 	s := &poolSys{t: t, w: w, cfg: cfg}
 	if cloud == nil {
-		cloud = &fCloud{w: w, enis: map[int]*fEni{}, busy: map[int]int{}}
+		cloud = &fCloud{w: w, enis: map[int]*fEni{}, busy: map[int]int{}, kplan: map[string][]string{}}
 		for i := 0; i < cfg.pre; i++ {
 			cloud.nextEni++
 			e := cloud.nextEni
@@ -688,7 +699,11 @@ func (d *driver) step(st vt.M) {
 		c := d.s.cloud
 		c.mu.Lock()
 		for _, o := range vt.List(st["outcomes"]) {
-			c.plan = append(c.plan, vt.Str(o))
+			if k := vt.Str(st["kind"]); k != "" {
+				c.kplan[k] = append(c.kplan[k], vt.Str(o))
+			} else {
+				c.plan = append(c.plan, vt.Str(o))
+			}
 		}
 		c.mu.Unlock()
 	case "uninhibit":
@@ -716,6 +731,7 @@ func (d *driver) drain() {
 	c := d.s.cloud
 	c.mu.Lock()
 	c.plan = nil
+	c.kplan = map[string][]string{}
 	c.mu.Unlock()
 	d.s.clearInhibit()
 	// open requests: let them finish (healthy cloud), cancel what does not finish
@@ -867,7 +883,7 @@ func TestVerifPool(t *testing.T) {
 	rng := vt.Rand(101)
 	outcomes := []string{"ok", "ok", "ok", "fb", "fb:enilimit", "fb:vswfull", "fb:ipquota", "fa", "partial:1", "partial:0", "fa:vswfull"}
 	for k := 0; k < nrand; k++ {
-		cfg := vt.M{"cap": 2 + rng.Intn(2), "batch": 1 + rng.Intn(3), "slots": 2 + rng.Intn(2), "v4": true, "v6": rng.Intn(4) == 0,
+		cfg := vt.M{"cap": 2 + rng.Intn(2), "batch": 1 + rng.Intn(3), "slots": 2 + rng.Intn(2), "v4": true, "v6": rng.Intn(3) == 0,
 			"pre": rng.Intn(2), "trunk": rng.Intn(3) == 0, "policy": []string{"most_ips", "least_ips"}[rng.Intn(2)]}
 		mn := rng.Intn(3)
 		cfg["minIdle"], cfg["maxIdle"] = mn, mn+rng.Intn(3)
@@ -894,8 +910,11 @@ func TestVerifPool(t *testing.T) {
 				sc = append(sc, vt.M{"a": "sync", "slot": 1 + rng.Intn(3)})
 			case x < 15:
 				sc = append(sc, vt.M{"a": "remove", "k": rng.Intn(3), "j": rng.Intn(3), "fam": 4})
-			case x < 17:
+			case x < 16:
 				sc = append(sc, vt.M{"a": "plan", "outcomes": []any{outcomes[rng.Intn(len(outcomes))], outcomes[rng.Intn(len(outcomes))]}})
+			case x < 17:
+				kinds := []string{"assign4", "assign6", "assign6", "unassign4", "unassign6", "delete", "create"}
+				sc = append(sc, vt.M{"a": "plan", "kind": kinds[rng.Intn(len(kinds))], "outcomes": []any{[]string{"fa", "fa:vswfull", "partial:1", "fb"}[rng.Intn(4)]}})
 			case x < 18:
 				sc = append(sc, vt.M{"a": "uninhibit"})
 			case x < 19:
@@ -912,6 +931,15 @@ func TestVerifPool(t *testing.T) {
 				vt.M{"a": "syncpool"}, vt.M{"a": "wait", "ms": rng.Intn(40)}, vt.M{"a": "alloc", "p": 1 + rng.Intn(4)}, vt.M{"a": "settle"})
 		}
 		if k%3 == 1 {
+			// the balancer racing with requests served from idle addresses
+			vt.Map(sc[0]["conf"])["maxIdle"] = 0
+			vt.Map(sc[0]["conf"])["minIdle"] = 0
+			for j := 0; j < 3; j++ {
+				q := 1 + rng.Intn(4)
+				sc = append(sc, vt.M{"a": "uninhibit"}, vt.M{"a": "alloc", "p": 1}, vt.M{"a": "alloc", "p": 2}, vt.M{"a": "alloc", "p": 3}, vt.M{"a": "settle"},
+					vt.M{"a": "release", "p": q}, vt.M{"a": "alloc", "p": q}, vt.M{"a": "syncpool"}, vt.M{"a": "wait", "ms": 20}, vt.M{"a": "release", "p": 1 + rng.Intn(4)},
+					vt.M{"a": "syncpool"}, vt.M{"a": "alloc", "p": 4}, vt.M{"a": "settle"})
+			}
 			// cancellations racing with the commit of a first ADD while addresses are idle
 			sc = append(sc, vt.M{"a": "uninhibit"}, vt.M{"a": "settle"})
 			for j := 0; j < 4; j++ {
@@ -948,16 +976,20 @@ func TestVerifPool(t *testing.T) {
 		}
 		d := &driver{s: sys, w: w, open: map[int]context.CancelFunc{}, openPod: map[int]int{}, results: make(chan allocRes, 64),
 			holds: map[int]*held{}, last: map[int]*held{}, maxReq: vt.EnvInt("VERIF_MAXREQ", 12)}
+		dbg := os.Getenv("VERIF_DEBUG") != ""
 		for i, st := range sc[1:] {
 			d.step(st)
+			if dbg {
+				w.Emit(vt.M{"ev": "dbg", "after": st, "st": sys.status()})
+			}
 			if vt.Str(st["a"]) == "alloc" && i+2 < len(sc) && vt.Int(sc[i+2]["us"]) > 0 {
 				continue // cancel burst: no extra delay
 			}
 			if vt.Int(st["us"]) > 0 {
 				continue
 			}
-			if si%3 == 1 && vt.Str(st["a"]) == "alloc" {
-				continue // burst: concurrent requests hit the pool within microseconds
+			if si%3 == 1 {
+				continue // burst scenario: requests, releases and the balancer hit the pool within microseconds of each other
 			}
 			time.Sleep(time.Duration(jr.Intn(4)) * 5 * time.Millisecond)
 		}
